@@ -159,6 +159,7 @@ def main(chk):
                 chk.fail_closed.append('memory report not confirmed natively: %s %r' % (rep['msg'], split_lists(iin)))
     native.close()
     empty_elements_part(chk, quick)
+    initializer_part(chk, quick)
     chk.finish(level='other', explanation=(
         'mesh_reader::get_cell_mesh runs from the IR on connectivity lists whose entries are all symbolic (0..2^31-1), for every list length up to the bound; z3 decides path feasibility, whether a symbolic offset can leave its object, '
         'and whether accesses fit allocations of symbolic size. Every path must end in a return with in-range local ids and copied existing points or in an exception derived from std::exception, without any access outside a live object. '
@@ -224,6 +225,104 @@ def empty_elements_part(chk, quick):
             else:
                 chk.fail_closed.append('empty element %s: %s reported symbolically, native run returned %r' % (c18.slot_name(slot), b['what'], q.get('i', [])[:2]))
     native.close()
+
+def initializer_part(chk, quick):
+    """cross-checks of simulation_initializer::run (cell count vs number of type ids, type id range, at least one face type per cell type) with the
+    file-level pieces replaced by stand-ins and the type ids of the mesh file symbolic (every value std::stoi can deliver): the constructor
+    either completes with every cell created from a cell type of the parameter list, or throws an exception derived from std::exception;
+    no access outside an object"""
+    import subprocess
+    ir = build.build_ir(['h_init.cpp'])
+    mod = api.load_module(ir)
+    names = list(mod.funcs)
+    dem = subprocess.run(['c++filt'], input='\n'.join(names), capture_output=True, text=True).stdout.split('\n')
+    def syms(prefix): return [n for n, d in zip(names, dem) if d.startswith(prefix)]
+    def one(prefix):
+        h = syms(prefix)
+        if len(h) != 1: raise RuntimeError('symbol for %r: %r' % (prefix, h))
+        return h[0]
+    ov = {}
+    for real, stub in (('mesh_reader::read(', 'k5_read('), ('mesh_reader::get_cell_types(', 'k5_get_cell_types('), ('simulation_initializer::triangulate_surface(', 'k5_triangulate_surface(')):
+        s_ = one(stub)
+        for r_ in syms(real): ov[r_] = (lambda it, a, s_=s_: it.call_function(s_, a))
+    ctor_names = syms('mesh_reader::mesh_reader(std::__cxx11::basic_string')
+    for n in ctor_names + ['_ZN11mesh_readerC1ERKNSt7__cxx1112basic_stringIcSt11char_traitsIcESaIcEEEb', '_ZN11mesh_readerC2ERKNSt7__cxx1112basic_stringIcSt11char_traitsIcESaIcEEEb']:
+        ov[n] = (lambda it, a: it.str_init(a[0], b''))
+    ov.update(envstubs.opaque_to_string())
+    IMAXv = 2 ** 31 - 1
+    jobs = []
+    for ncells in (1, 2):
+        for ntypes in (1, 2, 3):
+            jobs.append((ncells, ncells, ntypes, [1, 1, 1, 1]))
+    jobs += [(2, 1, 2, [1, 1, 1, 1]), (1, 2, 2, [1, 1, 1, 1]), (2, 2, 2, [1, 0, 1, 1]), (1, 1, 0, [1, 1, 1, 1])]
+    def work(i):
+        ncells, nids, ntypes, nfts = jobs[i]
+        z = SV.Z3Ctx()
+        TY = [S.ivar('ty%d' % k, 64, 0, IMAXv) for k in range(4)]
+        def setup(it): it.format_witness = True
+        sess = api.Session(ir, mode='real', overrides=ov, setup=setup)
+        ctl, res = sess.explore('h_c17_init', [], [ncells, nids, ntypes] + nfts + TY, zctx=z, max_paths=600, branch_timeout_ms=10000, symbolic_alloc=True)
+        name = 'I initializer cross-checks/%d cell(s) in the mesh, %d type id(s) in the file, %d cell type(s) with %r face types' % (ncells, nids, ntypes, nfts[:ntypes])
+        out = {'name': name, 'obs': [], 'bad': [], 'fail': [], 'paths': ctl.paths_done, 'functions': sorted(sess.functions_called), 'queries': z.queries, 'solver_s': z.solver_time, 'iin': [ncells, nids, ntypes] + nfts}
+        if not ctl.exhausted: out['fail'].append(name + ': path budget exhausted')
+        for (tr, pc, r) in res:
+            st = getattr(r, 'status', None)
+            if st == 'pathend': continue
+            key = name + '/path ' + (''.join(('T' if d.taken else 'F') if d.kind != 'v' else 'v' for d in tr if not d.forced)[-20:] or '-')
+            stw, m = SV.satisfiable(z, pc, 10000)
+            if stw == 'unsat': continue
+            model = {k: int(v) for k, v in (m or {}).items()}
+            if st == 'ok':
+                cls, ncreated, ngiven = r.iout[0], r.iout[1], r.iout[2]
+                given = r.iout[3:3 + ngiven] if type(ngiven) is int else []
+                good = cls in (1, 2) or (cls == 0 and ncreated == ncells and all(type(g) is int and 100 <= g < 100 + ntypes for g in given) and len(given) == ncells)
+                out['obs'].append((key + '/completes with every cell built from a cell type of the parameter list, or throws an exception derived from std::exception', 'proved' if good else 'violated'))
+                if not good: out['bad'].append({'what': 'start-up completed with class %r, %r cells, cell types handed to the cells: %r' % (cls, ncreated, given), 'where': '', 'model': model})
+            elif st == 'memory':
+                out['obs'].append((key + '/every access inside a live object', 'violated'))
+                out['bad'].append({'what': '%s: %s' % (r.error[0], r.error[1]), 'where': r.error[2], 'model': model})
+            elif st == 'exception':
+                out['obs'].append((key + '/only std exceptions', 'violated'))
+                out['bad'].append({'what': 'exception %s escapes' % getattr(r, 'exception', '?'), 'where': '', 'model': model})
+            else:
+                out['fail'].append('%s: path ended with %s %r' % (name, st, getattr(r, 'error', None)))
+        return out
+    outs = par.pmap(work, len(jobs), procs=10)
+    nat_asan = None
+    seen = set()
+    for job, o in zip(jobs, outs):
+        chk.paths += o['paths']; chk.queries += o['queries']; chk.solver_s += o['solver_s']; chk.functions |= set(o['functions'])
+        for m_ in o['fail']: chk.fail_closed.append(m_)
+        for (name, status) in o['obs']: chk.ob(name, status, True, 0)
+        for b in o['bad'][:2]:
+            ident = b['what'][:40]
+            if ident in seen: continue
+            iin = o['iin'] + [b['model'].get('ty%d' % k, 0) for k in range(4)]
+            # native replay of the real start-up code needs real files; the stand-ins exist only in the IR build. The replay therefore runs the
+            # same comparison natively on a two-line extract: see replay_init_native
+            rep = replay_init_native(iin)
+            rep.update(report=b['what'], where=b['where'], iin=iin)
+            if rep.get('confirmed'):
+                seen.add(ident)
+                chk.violation('C17/initializer/cell type id outside the parameter list is used', 'cell type ids %r with %d cell type(s): %s; native: %s' % (iin[7:7 + iin[1]], iin[2], b['what'], rep['what']), rep)
+            else:
+                chk.fail_closed.append('%s: %s reported symbolically, native replay: %s' % (o['name'], b['what'], rep.get('what')))
+
+def replay_init_native(iin):
+    nat = build.build_native(['h_init.cpp'])
+    native = api.Native(nat)
+    q = native.call('h_c17_init', [], iin)
+    native.close()
+    ntypes = iin[2]
+    if q.get('status') in ('crash', 'timeout'):
+        return {'confirmed': True, 'what': 'the native start-up (real mesh file, real reader) was killed by signal %s' % (-q.get('rc', 0) if q.get('rc') else '?')}
+    if q.get('status') != 0 or len(q['i']) < 3: return {'confirmed': False, 'what': 'native run failed: %r' % (q.get('status'),)}
+    cls, ncreated, ngiven = q['i'][0], q['i'][1], q['i'][2]
+    given = q['i'][3:3 + ngiven]
+    if cls == 0 and not all(100 <= g < 100 + ntypes for g in given):
+        return {'confirmed': True, 'what': 'native start-up completed and created cells from cell types %r that are not in the parameter list (tags 100..%d)' % (given, 99 + ntypes)}
+    if cls == 3: return {'confirmed': True, 'what': 'an exception that is not derived from std::exception left the native start-up'}
+    return {'confirmed': False, 'what': 'native start-up: class %d, %d cells, types %r' % (cls, ncreated, given)}
 
 def split_lists(iin):
     nc = iin[1]; lens = iin[2:2 + nc]; p = 2 + nc; out = []
